@@ -141,6 +141,25 @@ def vartype_codes():
     return [w for w in re.findall(r'^\s*([A-Z]+)\s*,?', re.sub(r'//.*', '', m.group(1)), flags=re.M)]
 
 
+def dqm_checks_length():
+    flat = inspect.getsource(dqm_mod.DiscreteQuadraticModel._from_file_numpy).replace(' ', '')
+    return 'iflen(blob)!=length:' in flat and 'raise' in flat
+
+
+def cqm_checks_tiling():
+    flat = inspect.getsource(cqm_mod.ConstrainedQuadraticModel.from_file).replace(' ', '')
+    direct = 'zipfile.ZipFile(file_like' in flat
+    helper = '_open_archive(file_like)' in flat and hasattr(cqm_mod, '_open_archive') and 'start_dir' in inspect.getsource(cqm_mod._open_archive)
+    if direct == helper:
+        raise SystemExit('fileconsts.py: cannot tell how CQM.from_file opens the archive')
+    return helper
+
+
+def header_reads_fully():
+    flat = inspect.getsource(fv.read_header).replace(' ', '')
+    return 'whilelen(header_bytes)<header_len:' in flat
+
+
 def more_consts():
     names, zip64, comp = cqm_member_names()
     reads, regex = cqm_read_names()
@@ -169,6 +188,15 @@ def more_consts():
            f'def localHeaderSize : Nat := {zipfile.sizeFileHeader}',
            f'def centralDirSignature : List UInt8 := {lst(zipfile.stringCentralDir)}',
            f'def centralDirSize : Nat := {zipfile.sizeCentralDir}',
+           '',
+           '/-- does `DiscreteQuadraticModel._from_file_numpy` refuse a `BIAS` section shorter than its recorded length',
+           '    (`len(blob) != length`) before handing it to `np.load`? -/',
+           f'def dqmChecksSectionLength : Bool := {"true" if dqm_checks_length() else "false"}',
+           '/-- does `ConstrainedQuadraticModel.from_file` check that the archive members tile the file from the end of the',
+           '    header to the central directory (`_open_archive`) instead of calling `zipfile.ZipFile` directly? -/',
+           f'def cqmChecksArchiveTiling : Bool := {"true" if cqm_checks_tiling() else "false"}',
+           '/-- does `read_header` read the header dictionary fully (loop until `header_len` bytes or end of file)? -/',
+           f'def headerReadsFully : Bool := {"true" if header_reads_fully() else "false"}',
            ]
     return out
 
